@@ -78,6 +78,7 @@ type fieldGen struct {
 	sub      []*fieldGen // the mix-in's own fields
 	shadowOf *fieldGen   // (sub field) the field that owns this field's column
 	tieIn    string      // (sub field with a column of its own) name of its mix-in
+	rel      *relGen     // a many2many relation field (keyed.go): no column
 }
 
 func (f *fieldGen) tag(v2 bool) string {
@@ -124,6 +125,8 @@ type model struct {
 	shadowUniq []*uniqExp
 	respelled  int // tag keys written with blanks / in another letter case
 	mixins     []*fieldGen
+	namer      bool      // the table comes from the handle's NamingStrategy
+	rels       []*relGen // generated many2many relations (namer histories only)
 }
 
 func (m *model) addIdx(name string, unique bool, col string, expr, partial, v2 bool) {
@@ -592,8 +595,16 @@ func genModel(r *core.Rand, n int) *model {
 			m.genMixin(r, free[n:])
 		}
 	}
+	// how the table is named: per call (Table / scopes), or (1 of 4) by the handle's NamingStrategy;
+	// only then can the model have relations (keyed.go)
+	if r.Chance(1, 4) {
+		m.namer = true
+		if r.Chance(2, 3) {
+			m.genRelations(r, free)
+		}
+	}
 	m.reorder(r)
-	if r.Bool() {
+	if r.Chance(1, 2) || (len(m.rels) > 0 && r.Bool()) {
 		m.respell(r)
 	}
 	return m
@@ -614,7 +625,9 @@ func (m *model) features() (v1, add []string) {
 			for _, x := range f.feats {
 				s2["new:"+x] = true
 			}
-			if f.mixin {
+			if f.rel != nil {
+				s2["new:m2m"] = true
+			} else if f.mixin {
 				s2["new:mixin"] = true
 			} else if f.emb {
 				s2["new:emb"] = true
